@@ -723,66 +723,10 @@ def r_levelsets(P, R):
     """swap hands the per-level node index back consistently: a node found
     at level L after the swap goes into the set stored as all_levels[L]."""
     levels_complete(P, R)
-    f = P.func('dd.bdd.BDD.swap')
-    fn = f.node
-    assigned = dict()      # 'x' / 'y' -> set name
-    for st in fn.body:
-        if isinstance(st, ast.Assign) and isinstance(
-                st.targets[0], ast.Subscript) and au.is_name(
-                    st.targets[0].value, 'all_levels') and isinstance(
-                        st.value, ast.Name):
-            assigned[au.src(st.targets[0].slice)] = st.value.id
-    if set(assigned) != {'x', 'y'}:
-        R.undecided('R-LEVELSET', f.qualname, 'all_levels',
-                    'the two assignments all_levels[x|y] = <set> were not '
-                    'found')
-        return
-    sets = set(assigned.values())
-    n = 0
-    bad = None
-    for lp in [x for x in fn.body if isinstance(x, ast.For)]:
-        adds = [c for c in au.calls_in(lp, 'add')
-                if au.call_recv(c) and au.call_recv(c)[0] in sets]
-        if not adds:
-            continue
-        for items, out in pa.block_paths(lp.body):
-            level = None
-            for it in items:
-                t = None
-                arm = None
-                if it[0] == 'test':
-                    t, arm = it[1], it[2]
-                elif it[0] == 'guard' and isinstance(it[1], ast.If):
-                    t, arm = it[1].test, False
-                if isinstance(t, ast.Compare) and len(
-                        t.ops) == 1 and au.is_name(t.left, 'i') and \
-                        isinstance(t.comparators[0], ast.Name) and \
-                        t.comparators[0].id in ('x', 'y'):
-                    eq = isinstance(t.ops[0], ast.Eq)
-                    ne = isinstance(t.ops[0], ast.NotEq)
-                    if (eq and arm) or (ne and not arm):
-                        level = t.comparators[0].id
-                if it[0] == 'stmt':
-                    for c in au.calls_in(it[1], 'add'):
-                        rc = au.call_recv(c)
-                        if rc and rc[0] in sets:
-                            n += 1
-                            if level is None:
-                                continue
-                            if assigned[level] != rc[0]:
-                                bad = (c, level, rc[0])
-    if bad:
-        c, level, got = bad
-        R.violation(
-            'R-LEVELSET', 'wrong-level-set', f.qualname, got,
-            f'`{au.short(c)}`: a node that is at level {level} after the '
-            f'swap is put into `{got}`, but all_levels[{level}] is '
-            f'`{assigned[level]}`: the per-level index handed to the next '
-            'swap lists nodes under the wrong level',
-            unit=f.unit.rel, line=c.lineno)
-    else:
-        R.holds('R-LEVELSET', f.qualname,
-                f'{n} insertion(s): nodes at level L after the swap go '
-                'into the set stored as all_levels[L]')
-    R.floor('R-LEVELSET insertions into the per-level sets', n, 4)
+    # decided on the swap model (rules/models.py), together with what
+    # else C07 asks of a swap
+    from . import models
+    n = models.swap_model(P, R)
+    if n is not None:
+        R.floor('R-LEVELSET calls of the swap model', n, 60)
 r_levelsets.NAME = 'R-LEVELSET'
